@@ -38,6 +38,9 @@ type kvAnalysis struct {
 func locOf(fr eng.FieldRef) string {
 	t := types.Unalias(eng.Deref(fr.Owner))
 	if n, ok := t.(*types.Named); ok {
+		if curProg != nil && eng.IsNamed(n, "db", "kv") {
+			return "kv." + kvRoleOf(curProg, fr.Name) // canonical role name, whatever the field is called
+		}
 		return n.Obj().Name() + "." + fr.Name
 	}
 	return eng.TypeShort(t) + "." + fr.Name
